@@ -1,7 +1,9 @@
 /- C37 driver.
-   `C37 run dec|nat <code> [st…] [op,…] <fuel>` → per-op [effects so far, result] + all effects + fuelOut
-   `C37 canon <code> [outcome…] <fuel>` → effects + result of the untimed specification
-   code: [[eff,k],[yf,i],[yl,[i,…]],[ym],[ret,v],[retlast],[raise,e],[push,h],[pop],[jmp,l],[caught],[reraise]] -/
+   `C37 run dec|nat <code> [st…] [op,…] <fuel> <cv>` → per-op [effects so far, result] + all effects + fuelOut
+   `C37 canon <code> [outcome…] <fuel> <cv>` → effects + result of the untimed specification
+   (`cv` = the caller's value of the context variable)
+   code: [[eff,k],[yf,i],[yl,[i,…]],[ym],[ret,v],[retlast],[raise,e],[push,h],[pop],[jmp,l],[caught],[reraise],
+          [cread],[cset,v],[tset,v],[treset]] -/
 import TornadoModel.Base.Wire
 import TornadoModel.C36.Drv
 import TornadoModel.C37.Spec
@@ -33,6 +35,10 @@ def decInstr : V → Option Code.Instr
   | .list [.atom "jmp", l] => l.nat?.map .jmp
   | .list [.atom "caught"] => some .caught
   | .list [.atom "reraise"] => some .reraise
+  | .list [.atom "cread"] => some .cread
+  | .list [.atom "cset", v] => v.nat?.map .cset
+  | .list [.atom "tset", v] => v.nat?.map .tset
+  | .list [.atom "treset"] => some .treset
   | _ => none
 
 def decOp : V → Option Op
@@ -55,10 +61,10 @@ def handle (toks : List String) : String :=
   match toks.head?, parseArgs toks.tail with
   | some cmd, some args =>
     match cmd, args with
-    | "run", [.atom mode, code, st, ops, fuel] =>
-      match decList decInstr code, decList decF st, decList decOp ops, fuel.nat? with
-      | some code, some st, some ops, some fuel =>
-        let g := Code.load code
+    | "run", [.atom mode, code, st, ops, fuel, cv] =>
+      match decList decInstr code, decList decF st, decList decOp ops, fuel.nat?, cv.nat? with
+      | some code, some st, some ops, some fuel, some cv =>
+        let g := Code.load code cv
         let res := match mode with
           | "dec" =>
             some (traceOps (Runner.run Code.gen fuel) (Runner.start Code.gen fuel (init st g)) ops,
@@ -72,14 +78,14 @@ def handle (toks : List String) : String :=
           ok [.list (tr.map (fun (n, r) => .list [.int n, encRes r])), .list ((effects fin).map encEff),
               V.ofBool fin.fuelOut]
         | none => err "bad-mode"
-      | _, _, _, _ => err "bad-arg"
-    | "canon", [code, os, fuel] =>
-      match decList decInstr code, decList decOutcome os, fuel.nat? with
-      | some code, some os, some fuel =>
+      | _, _, _, _, _ => err "bad-arg"
+    | "canon", [code, os, fuel, cv] =>
+      match decList decInstr code, decList decOutcome os, fuel.nat?, cv.nat? with
+      | some code, some os, some fuel, some cv =>
         let oc : Nat → C36.Outcome := fun f => (os[f]?).getD .cancelled
-        let r := canon Code.gen oc fuel (Code.load code) (.send .none)
+        let r := canon Code.gen oc fuel (Code.load code cv) (.send .none)
         ok [.list ((r.1.flatMap (·.effs)).map encEff), encRes r.2]
-      | _, _, _ => err "bad-arg"
+      | _, _, _, _ => err "bad-arg"
     | _, _ => err "bad-cmd"
   | _, _ => err "bad-line"
 
